@@ -72,9 +72,10 @@ IntLitSpellings ==
   LET plain == {Lit(f, n, "none", s) : f \in Forms, n \in Boundaries, s \in AllSuffixes}
       seps == IF Lang # "c++" THEN {}
               ELSE {Lit(f, n, st, s) : f \in Forms, n \in Boundaries, st \in IF Thorough THEN {"first", "last", "group"} ELSE {"first", "group"},
-                                       s \in IF Thorough /\ f.base \in {10, 16} THEN AllSuffixes ELSE CanonSuffixes}
+                                       s \in IF Thorough THEN AllSuffixes ELSE CanonSuffixes}
       \* quick: every suffix spelling only for decimal and lower-case hex, canonical suffixes for the other forms
-      keep(l) == Thorough \/ l.suffix \in CanonSuffixes \/ l.prefix \in {<<>>, <<"0", "x">>}
+      keep(l) == IF l.sep = "none" THEN Thorough \/ l.suffix \in CanonSuffixes \/ l.prefix \in {<<>>, <<"0", "x">>}
+                 ELSE l.suffix \in CanonSuffixes \/ (Thorough /\ l.base \in {10, 16})
   IN  {l \in plain \cup seps : keep(l) /\ StyleDistinct(l) /\ IntLitType(l, P) # "?"}
 
 PlainEls == {ElCh(c) : c \in PlainChars}
